@@ -4,8 +4,10 @@ catch it (meta.json "property"): apply to /repo, run the quick check, undo.
 Writes seeded/RESULTS.json (which check reported what)."""
 import json, pathlib, subprocess, sys, time
 HERE = pathlib.Path(__file__).resolve().parent.parent
-out = {}
 only = sys.argv[1:]
+out = {}
+if only and (HERE / "seeded" / "RESULTS.json").exists():
+    out = json.loads((HERE / "seeded" / "RESULTS.json").read_text())     # partial re-run: keep the other entries
 for d in sorted((HERE / "seeded").iterdir()):
     if not d.is_dir() or (only and d.name not in only):
         continue
